@@ -17,6 +17,7 @@ from vlib import Report, ToolError, log
 PID = "C11"
 ENGINES = ["decode"]
 TIMEOUT_MS = 10_000
+STEPS_OF = {}   # decoder -> post-decode steps (exported by the harness, checked equal to Decode.tla PostSteps by MC_Decode_gen!StepsAgree)
 
 
 def cause_of(note):
@@ -45,16 +46,20 @@ def cause_of(note):
 
 
 def signature(b, e, bounds):
-    """narrow signature of one non-conforming call: decoder + outcome class + short cause (no line numbers)"""
+    """narrow signature of one non-conforming call: the decoder - or the post-decode step in progress when the call
+    ended - + outcome class + short cause (no line numbers)"""
     dec = b["dec"]
     out = e["out"]
+    unit = e.get("step") or dec
     if out == "panic":
-        return "decode:%s:panic:%s" % (dec, cause_of(e.get("note", "")))
+        return "decode:%s:panic:%s" % (unit, cause_of(e.get("note", "")))
     if out == "abort":
-        return "decode:%s:abort:%s" % (dec, "alloc_refused" if e.get("alloc_refused") else re.sub(r"\W+", "_", e.get("note", "?"))
+        return "decode:%s:abort:%s" % (unit, "alloc_refused" if e.get("alloc_refused") else re.sub(r"\W+", "_", e.get("note", "?"))
                                        )
     if out == "hang":
-        return "decode:%s:hang" % dec
+        return "decode:%s:hang" % unit
+    if e.get("step") and e["step"] not in STEPS_OF.get(dec, ()):
+        return "decode:%s:step_not_in_catalogue:%s" % (dec, re.sub(r"\W+", "_", e["step"]))
     bd = bounds[dec + "@" + b["ct"]]
     if e["peak"] > bd["a"] + bd["b"] * b["len"]:
         return "decode:%s:alloc:over_bound" % dec
@@ -85,6 +90,12 @@ def validate_trace(path, what):
 def report_bad(rep, events, bad_idx, cases_by_i, bounds, rej, seen):
     for li in bad_idx:
         e = events[li - 1]
+        if e["k"] == "Steps":
+            sig = "decode:steps:not_in_catalogue"
+            if sig not in seen:
+                seen.add(sig)
+                rep.violation(sig, {"kind": "steps", "event": e}, json.dumps(e)[:400])
+            continue
         if e["k"] == "Sum":
             sig = "decode:%s:summary_inconsistent" % e["dec"]
             if sig not in seen:
@@ -99,8 +110,9 @@ def report_bad(rep, events, bad_idx, cases_by_i, bounds, rej, seen):
             continue
         seen.add(sig)
         case = cases_by_i.get(e["i"])
-        what = "%s rd=%s ver=%s ct=%s len=%d -> out=%s consumed=%s peak=%s reads=%s %s" % (
-            b["dec"], b["rd"], b["ver"], b["ct"], b["len"], e["out"], e["consumed"], e["peak"], e["reads"], e.get("note", "")[:200])
+        what = "%s rd=%s ver=%s ct=%s len=%d -> %sout=%s consumed=%s peak=%s reads=%s %s" % (
+            b["dec"], b["rd"], b["ver"], b["ct"], b["len"], ("decoded, then in step %s: " % e["step"]) if e.get("step") else "",
+            e["out"], e["consumed"], e["peak"], e["reads"], e.get("note", "")[:200])
         rep.violation(sig, {"kind": "case", "case": case, "begin": b, "end": e}, what)
     if not bad_idx and rej:
         rep.violation("decode:trace:rejected", {"kind": "trace", "rejected": rej}, rej)
@@ -134,15 +146,17 @@ def run_single(wd, case, bounds_path):
         end = next((x for x in evs if x["k"] == "End"), None)
         if end is not None:
             return begin, end
+        steps_seen = [x[2:].strip() for x in (so or "").splitlines() if x.startswith("S ")]
+        step = steps_seen[-1] if steps_seen else ""
         if hung:
             if attempt == 0:
                 continue
-            return begin, {"k": "End", "i": begin["i"], "out": "hang", "consumed": 0, "peak": 0, "reads": 0, "maxreq": 0, "note": ""}
+            return begin, {"k": "End", "i": begin["i"], "out": "hang", "consumed": 0, "peak": 0, "reads": 0, "maxreq": 0, "note": "", "step": step}
         refused = [int(x.split()[1]) for x in se.splitlines() if x.startswith("ALLOC-REFUSED ")]
         how = "signal %d" % -p.returncode if p.returncode < 0 else "exit %d" % p.returncode
         pk = min(max(refused), 2_000_000_000) if refused else 0
         return begin, {"k": "End", "i": begin["i"], "out": "abort", "consumed": 0, "peak": pk, "reads": 0, "maxreq": pk, "note": how,
-                       "alloc_refused": str(max(refused)) if refused else ""}
+                       "alloc_refused": str(max(refused)) if refused else "", "step": step}
     raise ToolError("replay: no result")
 
 
@@ -151,6 +165,8 @@ def gen_plans(wd, thorough, layouts):
     r = vlib.tlc("mc/MC_Decode_gen", cfg, workers=1, coverage=False, timeout=900, env={"LAYOUTS": layouts}, xmx="4g")
     if r.invariant_violated:
         print(r.out[-3000:])
+        if "StepsAgree" in str(r.invariant_violated):
+            raise ToolError("the post-decode steps implemented by the harness differ from the catalogue PostSteps of Decode.tla")
         raise ToolError("MC_Decode_gen: %s violated inside the generator" % r.invariant_violated)
     vlib.tlc_ok(r, "MC_Decode_gen")
     plans = r.printed("PLAN")
@@ -161,6 +177,10 @@ def gen_plans(wd, thorough, layouts):
     for x in json.loads(b[0]):
         bounds[x["dec"] + "@auto"] = x["auto"]
         bounds[x["dec"] + "@main"] = x["main"]
+    STEPS_OF.clear()
+    for x in vlib.read_ndjson(layouts):
+        if x["t"] == "target":
+            STEPS_OF[x["dec"]] = list(x.get("steps", []))
     pp = os.path.join(wd, "plans.ndjson")
     with open(pp, "w") as f:
         f.write("\n".join(plans) + "\n")
@@ -188,10 +208,19 @@ def selftest(wd, events):
     ev[sums[1]]["wp"] = 1_900_000_000
     ev[sums[1]]["maxpeak"] = 1_900_000_000
     expect.append(sums[1] + 1)
+    if len(ends) > 3:
+        ev[ends[3]]["step"] = "Segment::no_such_step"
+        expect.append(ends[3] + 1)
+    stp = [i for i, e in enumerate(ev) if e["k"] == "Steps"]
+    if stp:
+        ev[stp[0]]["names"] = list(ev[stp[0]]["names"]) + ["Segment::no_such_step"]
+        ev[stp[0]]["n"] = list(ev[stp[0]]["n"]) + [1]
+        ev[stp[0]]["ok"] = list(ev[stp[0]]["ok"]) + [1]
+        expect.append(stp[0] + 1)
     st = [i for i in ends if ev[i - 1].get("stream")]
     if st:
         i = st[-1]
-        if i not in ends[:3]:
+        if i not in ends[:4]:
             ev[i]["reads"] = ev[i]["consumed"] + 1
             expect.append(i + 1)
     p = os.path.join(wd, "selftest_trace.ndjson")
@@ -292,6 +321,14 @@ def run(tier, replay):
 
     nself = selftest(wd, events) if not rep.violations else 0
 
+    # every post-decode step of the catalogue ran (and not only on values it refuses)
+    catalogue = sorted({x for v in STEPS_OF.values() for x in v})
+    steps_run = info.get("steps", {})
+    never_run = [x for x in catalogue if steps_run.get(x, [0, 0])[0] == 0]
+    never_ok = [x for x in catalogue if steps_run.get(x, [0, 0])[1] == 0]
+    if (never_run or never_ok) and not rep.violations:
+        raise ToolError("post-decode steps of the catalogue never executed %s / never returned Ok %s (vacuous)" % (never_run, never_ok))
+
     # coverage
     sums = [e for e in events if e["k"] == "Sum"]
     ind = [e for e in events if e["k"] == "End"]
@@ -320,6 +357,7 @@ def run(tier, replay):
         "rule": "one evaluation = one call of one decoder (decoder x reader x protocol version x chain type x input), inputs generated as: "
                 "valid encodings written by the repository's own encoders; TLC-enumerated mutation plans (Decode.tla: integer fields set to boundary/limit/huge "
                 "values, tag sweeps, truncation at every field boundary / offset, field drop / duplicate / splice from another message) applied to them; "
+"joint segment-identifier plans (height 0..255 x idx near every 2^k; idx * 2^height on the 2^62 / 2^63 / 2^64 boundaries) and segment proofs re-encoded one hash short / long / empty; "
                 "seeded random bytes of length 0..2048; a valid prefix followed by random bytes; well-formed frame headers with random or valid bodies. "
                 "A call is non-trivial when the decoder returned a value or consumed >= 16 input bytes before refusing (string decoders: input of >= 2 "
                 "characters) or ended in anything but ok|err; distinct = distinct 64-bit FNV-1a hash of (decoder, reader, version, chain type, check "
@@ -338,6 +376,9 @@ def run(tier, replay):
         "decoder_calls": info["cases"], "calls_per_decoder": per_dec,
         "valid_encodings_run": seeds_run, "valid_encodings_accepted": seeds_ok,
         "honest_max_peak": honest,
+        "post_decode_steps_in_catalogue": len(catalogue),
+        "post_decode_steps": {k: {"run": v[0], "ok": v[1]} for k, v in sorted(steps_run.items())},
+        "decoders_with_post_decode_steps": sum(1 for v in STEPS_OF.values() if v),
         "individually_logged_calls": len(ind), "summary_events": len(sums),
         "children": info["children"], "child_restarts": info["restarts"], "unconfirmed_child_deaths": info["unconfirmed"],
         "dropped_repeats_of_logged_classes": info["dropped_repeats"],
@@ -352,6 +393,7 @@ def run(tier, replay):
         "allocation = bytes live above the level at Begin on the decoding thread, measured by a counting global allocator; the per-decoder constants A, B are those of Decode.tla (documented there)",
         "calls within half of their bound are validated in aggregated form (count, ok+err=count, worst peak/len pair) computed by the worker; every other call is validated individually",
         "stateless checks on segments are run against MMR sizes of real MMRs with 1..3000 leaves (a validated header's sizes), not arbitrary u64 sizes: Segment::root is linear in the MMR size",
+        "post-decode steps = the conversions / accessors / stateless checks the handlers apply to a decoded value before chain state is consulted (catalogue PostSteps in Decode.tla, read off p2p/src/protocol.rs, servers/src/common/adapters.rs, chain/src/pipe.rs, the desegmenter, the pool, api/src/handlers); the serving side of Get*Segment runs Segment::from_pmmr on fixed in-memory MMRs (VecBackend), heights admitted as in the adapters",
         "secp256k1 / blake2b / croaring internals are primitives; StreamingReader (local store only) is not a network decoder and is not exercised",
         "a hang is declared after %d ms of silence, re-confirmed once on the input alone in a fresh child" % TIMEOUT_MS,
     ]
